@@ -221,11 +221,21 @@ def own_object(f, e, family):
     if o is None:
         return True
     o = strip(o)
+    derefed = False
     while o.get('k') == 'un' and o.get('op') == '*':
         o = strip(o['e'])
+        derefed = True
     if o.get('k') == 'this':
         return True
     if o.get('k') == 'var':
+        if derefed and o.get('vk') == 'local' and T(f, o.get('t')).get('ptr'):
+            # `*q` with q a local pointer that walks the element storage (`T* q = _a`): an element, not a handle
+            import ir as _ir
+            for s_ in _ir.walk_stmts(f.get('body')):
+                if s_.get('k') == 'decl':
+                    for v in s_['vars']:
+                        if v.get('id') == o.get('id') and v.get('init') is not None and any(w.get('k') == 'mem' and w.get('f') in ('_a', 'a') for w in walk_expr(v['init'])):
+                            return False
         return True
     if o.get('k') == 'mem':
         b = strip(o.get('b') or {})
